@@ -27,7 +27,7 @@ if [ -x "checks/$lc/run.sh" ]; then
   # the check drives its own builds (several binaries / overlays)
   "checks/$lc/run.sh" "$work" "$tier" "${@:3}" 2> "$work/stderr.log"
   rc=$?
-  [ $rc -ge 2 ] && tail -n 60 "$work/stderr.log" >&2 || cat "$work/stderr.log" >&2
+  if [ $rc -ge 2 ]; then head -n 40 "$work/stderr.log" >&2; echo "..." >&2; tail -n 20 "$work/stderr.log" >&2; else cat "$work/stderr.log" >&2; fi
   exit $rc
 fi
 overlay=()
@@ -43,7 +43,7 @@ fi
 "$work/h" -tier "$tier" "${@:3}" 2> "$work/stderr.log"
 rc=$?
 if [ $rc -ge 2 ]; then
-  tail -n 60 "$work/stderr.log" >&2
+  head -n 40 "$work/stderr.log" >&2; echo "..." >&2; tail -n 20 "$work/stderr.log" >&2
   if ! grep -q -e 'HARNESS-ERROR' -e 'choice tape divergence' "$work/stderr.log" && \
      grep -q -e '^fatal error:' -e '^panic:' -e 'goroutine stack exceeds' "$work/stderr.log" && \
      grep -q 'github.com/Tnze/go-mc/' "$work/stderr.log"; then
